@@ -35,7 +35,7 @@ RULE = (
 ASSUMPTIONS = [
     "process crash model: completed file operations persist, unflushed user-space buffers are lost; power loss / unsynced data is out of scope (as in the statement)",
     "granularity is the Python-level file operation; virtual processes are threads that run one at a time and get distinct os.getpid() values",
-    "histories / crash / interleave use records with >= 1 residue and names not starting with '#'; the two things the AGP cache cannot represent are covered by sub-check roundtrip and listed as KF-C15-1 / KF-C15-2",
+    "histories / crash / interleave use records with >= 1 residue and names not starting with '#'; what the AGP cache cannot represent (such names, empty records) is covered by sub-check roundtrip",
     "reads of a cache file are atomic at open time (a sound subset of what a real reader can observe)",
 ]
 
@@ -424,17 +424,6 @@ def body_roundtrip(case, rec):
         compare(warm, want, "warm load (cache read back)")
 
 
-def kp_hash_name(sub, case, msg):
-    return sub == "roundtrip" and "warm load" in msg and any(r[0].startswith("#") for r in case["fasta"]["records"])
-
-
-def kp_empty_record(sub, case, msg):
-    return sub == "roundtrip" and "warm load" in msg and any(len(r[2]) == 0 for r in case["fasta"]["records"])
-
-
-KNOWN_PREDICATES = {"record_name_starts_with_hash": kp_hash_name, "empty_record_lost_by_cache": kp_empty_record}
-
-
 # --------------------------------------------------------------------------
 # strategies
 
@@ -496,5 +485,5 @@ SUBS = [
         budget={"quick": 1, "thorough": 1},
         desc="ALL schedules of 3 processes with <= 4 segments and <= 2 (quick) / 3 (thorough) bounded-length segments (1..12/13 operations), initial cache none/stale (quick) + only one file / valid (thorough)"),
     Sub("roundtrip", kind="hyp", strategy=roundtrip_cases, body=body_roundtrip,
-        budget={"quick": 1600, "thorough": 30000}, desc="cold load vs warm load over the full FASTA domain (two listed findings excluded by predicate)"),
+        budget={"quick": 1600, "thorough": 30000}, desc="cold load vs warm load over the full FASTA domain (names starting with '#', empty records)"),
 ]
